@@ -33,7 +33,9 @@ need `ZMod n` to be a field carry `[Fact n.Prime]` (and say which point must be 
     - proof-DLEQ secret (`proofDleq_tamper_secret`): changes `Y`, hence `B'`; `s = 0 ∨` collision;
     - proof-DLEQ amount (`proofDleq_tamper_amount`): changes the key `A` the verifier looks up (and `C'`): collision;
     - proof-DLEQ `C` (`proofDleq_tamper_C`): changes `C' = C + rA`: collision;
-    - proof-DLEQ `s` (`proofDleq_tamper_s`): as `s`.
+    - proof-DLEQ `s` (`proofDleq_tamper_s`): as `s`;
+    - ANY simultaneous change with the same `e` (`dleq_tamper_any`, `proofDleq_tamper_any`, `dleqInput_eq_iff`): collision,
+      or the hashed tuple is literally unchanged, which is characterised exactly.
 
 ## What is NOT proved (and cannot be, by this technique)
 * Changing `e` ALONE: algebra only gives the fixed-point characterisation `dleq_tamper_e_iff`
@@ -400,6 +402,51 @@ example : (2 : ZMod 7) ≠ 4 ∧ dleqVerify (1 : ZMod 7) hconst 3 6 1 2 6 ∧ dl
 -- the `s = 0` disjunct with a hash that is NOT constant: accepted for every `B'` although nothing collides
 example : dleqVerify (1 : ZMod 7) h7 5 0 1 2 0 ∧ dleqVerify (1 : ZMod 7) h7 5 0 1 4 0 ∧
     dleqInput (1 : ZMod 7) (5 : ZMod 7) 0 1 2 0 = dleqInput (1 : ZMod 7) (5 : ZMod 7) 0 1 4 0 := by decide
+
+/-- When do two transcripts with the same `e` make the verifier hash the SAME tuple? Exactly when `s`, `A`, `C'` agree and
+(`s = 0` or `B'` agrees). (`g ≠ 0`.) -/
+theorem dleqInput_eq_iff {e s s₂ : ZMod n} {A A₂ B₁ B₂ C₁ C₂ : G} (hg : g ≠ 0) :
+    dleqInput g e s A B₁ C₁ = dleqInput g e s₂ A₂ B₂ C₂ ↔ s = s₂ ∧ A = A₂ ∧ C₁ = C₂ ∧ (s = 0 ∨ B₁ = B₂) := by
+  constructor
+  · intro hx
+    have hA : A = A₂ := congrArg (fun x => x.2.2.1) hx
+    have hC : C₁ = C₂ := congrArg (fun x => x.2.2.2) hx
+    subst hA hC
+    have hs : s = s₂ := smul_left_cancel_of_ne_zero hg (add_right_cancel (congrArg Prod.fst hx))
+    subst hs
+    refine ⟨rfl, rfl, rfl, ?_⟩
+    by_cases h0 : s = 0
+    · exact Or.inl h0
+    · exact Or.inr (smul_right_cancel_of_ne_zero h0 (add_right_cancel (congrArg (fun x => x.2.1) hx)))
+  · rintro ⟨rfl, rfl, rfl, h0 | rfl⟩
+    · subst h0; simp only [dleqInput, zero_smul]
+    · rfl
+
+/-- The general tamper statement (ANY simultaneous change of `s, A, B', C'`, same `e`): if both transcripts are
+accepted then either the verifier hashes the same tuple for both — which by `dleqInput_eq_iff` means `s, A, C'` are
+unchanged and (`s = 0` or `B'` is unchanged) — or the two hashed tuples are an explicit collision. The single-field
+lemmas above and below are the special cases. -/
+theorem dleq_tamper_any {e s s₂ : ZMod n} {A A₂ B₁ B₂ C₁ C₂ : G} (hg : g ≠ 0)
+    (h : dleqVerify g hashE e s A B₁ C₁) (h' : dleqVerify g hashE e s₂ A₂ B₂ C₂) :
+    (s = s₂ ∧ A = A₂ ∧ C₁ = C₂ ∧ (s = 0 ∨ B₁ = B₂)) ∨
+      Collides hashE (dleqInput g e s A B₁ C₁) (dleqInput g e s₂ A₂ B₂ C₂) := by
+  by_cases hx : dleqInput g e s A B₁ C₁ = dleqInput g e s₂ A₂ B₂ C₂
+  · exact Or.inl ((dleqInput_eq_iff g hg).mp hx)
+  · exact Or.inr ⟨hx, h.symm.trans h'⟩
+
+/-- proof-DLEQ version: any simultaneous change of `s, r, A, Y, C` (same `e`). The non-colliding case is exactly:
+`s`, `A` and the re-blinded `C' = C + rA` unchanged and (`s = 0` or the re-blinded `B' = Y + rG` unchanged), i.e. the
+two proofs are re-blindings of one another (`Y₂ = Y + (r − r₂)G`, `C₂ = C + (r − r₂)A`) — three fields changed at
+once, and `Y₂` would have to be a `HashToCurve` output with a known discrete-log relation to `Y`. -/
+theorem proofDleq_tamper_any {e s s₂ r r₂ : ZMod n} {A A₂ Y Y₂ C C₂ : G} (hg : g ≠ 0)
+    (h : proofDleqVerify g hashE e s r A Y C) (h' : proofDleqVerify g hashE e s₂ r₂ A₂ Y₂ C₂) :
+    (s = s₂ ∧ A = A₂ ∧ C + r • A = C₂ + r₂ • A₂ ∧ (s = 0 ∨ blind g Y r = blind g Y₂ r₂)) ∨
+      Collides hashE (dleqInput g e s A (blind g Y r) (C + r • A)) (dleqInput g e s₂ A₂ (blind g Y₂ r₂) (C₂ + r₂ • A₂)) :=
+  dleq_tamper_any g hashE hg h h'
+
+-- the re-blinding degeneracy is real: Y₂ = Y + (r − r₂)g, C₂ = C + (r − r₂)A give the same hashed tuple
+example : dleqInput (1 : ZMod 7) (3 : ZMod 7) 6 3 (blind (1 : ZMod 7) 2 (5 : ZMod 7)) (6 + (5 : ZMod 7) • 3)
+    = dleqInput (1 : ZMod 7) (3 : ZMod 7) 6 3 (blind (1 : ZMod 7) 4 (3 : ZMod 7)) (5 + (3 : ZMod 7) • 3) := by decide
 
 /-- proof-DLEQ, `s` changed. -/
 theorem proofDleq_tamper_s {e s s' r : ZMod n} {A Y C : G} (hg : g ≠ 0) (hs : s ≠ s')
